@@ -442,7 +442,9 @@ def r_C17ad_C22b(root):
     out = []; inst = 0
     drv = find(load(root, M), "parse_tree_to_objgraph"); inst += 1
     cb = [c for c in calls(drv, own=True) if callee_name(c) == "pre_ref_resolution_callback"]
-    lm = [c for c in calls(drv, own=True) if callee_name(c) == "load_models"]
+    # the loader call itself, or a call of a function nested in the driver that makes it (the guarded call extracted into a local helper)
+    loaders_ = {"load_models"} | {f_.name for f_ in ast.walk(drv) if isinstance(f_, ast.FunctionDef) and f_ is not drv and any(isinstance(c_, ast.Call) and callee_name(c_) == "load_models" for c_ in ast.walk(f_))}
+    lm = [c for c in calls(drv, own=True) if callee_name(c) in loaders_]
     if not cb or not lm: raise AnalysisError("callback / load_models sites not found")
     if min(c.lineno for c in lm) < max(c.lineno for c in cb): out.append(Finding("C17", "C17.a", M, "parse_tree_to_objgraph", ast.unparse(lm[0]), "imports are loaded before the model is registered (import cycles load a file twice / recurse)"))
     # C17.d normalisation agreement for synthetic keys
